@@ -125,6 +125,8 @@ def run_replicated(arg):
     """Worker: run a replicated unit; returns the per-block projection (block 0) and whether all blocks agree."""
     engine.boot()
     u = arg
+    if 'replicate' in arg:        # the replication is done here, in the worker: a million datapoints are not shipped as JSON
+        u = replicate_unit({k: v for k, v in arg.items() if k != 'replicate'}, arg['replicate'])
     o = k2.run_unit(u)
     if 'rows' not in o:
         return o
